@@ -178,6 +178,26 @@ class Templates:
                 # (exit 2) unless some rule found a violation, never as a silent pass
                 self.errors[key] = str(e)
                 paths = []
+            # a node of the emitted template that the interpreter could not model (built by a library
+            # call such as ast.parse(text), taken from an unknown object) makes every verdict about
+            # the statement kind unreliable: contained failure, not a silently thinner template
+            if paths:
+                from .semwalk import events_of
+
+                for pth in paths:
+                    if pth.outcome != "ok":
+                        continue
+                    try:
+                        evs, _w = events_of(pth.result)
+                    except AnalysisError as e:
+                        self.errors[key] = str(e)
+                        paths = []
+                        break
+                    unk = [e for e in evs if e.kind == "unknown"]
+                    if unk:
+                        self.errors[key] = f"the emitted template contains a node the analyser cannot model: {unk[0].path} at {unk[0].site}"
+                        paths = []
+                        break
             self._entries[key] = Entry(key, "pending", paths)
         return self._entries[key]
 
